@@ -1407,6 +1407,8 @@ class Interp:
             recv = self.eval(cx, fr, e.func.value)
             args, kwargs = self.eval_args(cx, fr, e)
             return self.call_method(cx, fr, recv, e.func.attr, args, kwargs)
+        if isinstance(e.func, ast.Name) and e.func.id == "cast" and len(e.args) == 2 and not e.keywords:
+            return self.eval(cx, fr, e.args[1])  # typing.cast(T, x) -> x (the type argument is not evaluated)
         f = self.eval(cx, fr, e.func)
         args, kwargs = self.eval_args(cx, fr, e)
         return self.call_value(cx, fr, f, args, kwargs)
